@@ -315,6 +315,78 @@ func (w *World) ChunkChain(n int) []cid.Cid {
 }
 
 // ---------------------------------------------------------------------------
+// A private key whose Sign can be made to wait: the publisher signs the head message for
+// the root it has read, so a head request parked in Sign is known to have read the root, and
+// it answers only when released.  Makes "a head request overlaps SetRoot" a deterministic
+// schedule (no sleeps).  (Same device as cmd/c03's gatedKey.)
+
+type GatedKey struct {
+	ic.PrivKey
+	mu      sync.Mutex
+	armed   int
+	entered chan chan struct{}
+}
+
+func NewGatedKey(k ic.PrivKey) *GatedKey {
+	return &GatedKey{PrivKey: k, entered: make(chan chan struct{}, 16)}
+}
+
+func (k *GatedKey) Sign(data []byte) ([]byte, error) {
+	k.mu.Lock()
+	if k.armed > 0 {
+		k.armed--
+		latch := make(chan struct{})
+		k.mu.Unlock()
+		k.entered <- latch
+		<-latch
+	} else {
+		k.mu.Unlock()
+	}
+	return k.PrivKey.Sign(data)
+}
+
+// HeadRequestAcross runs the schedule: SetRoot(during); a head request is started and parked
+// in Sign (it has read `during`); SetRoot(after) returns; the request is released and
+// answers.  Returns whether the request did park (a publisher that answers from a cache
+// does not sign) and the status of its answer.
+func (s *Server) HeadRequestAcross(k *GatedKey, during, after cid.Cid) (parked bool, status int) {
+	s.Pub.SetRoot(during)
+	k.mu.Lock()
+	k.armed++
+	k.mu.Unlock()
+	done := make(chan int, 1)
+	go func() {
+		res, err := http.Get(s.TS.URL + ipniPrefix + "head")
+		if err != nil {
+			done <- -1
+			return
+		}
+		_, _ = io.Copy(io.Discard, res.Body)
+		res.Body.Close()
+		done <- res.StatusCode
+	}()
+	var latch chan struct{}
+	select {
+	case latch = <-k.entered:
+		parked = true
+	case status = <-done:
+		k.mu.Lock()
+		if k.armed > 0 {
+			k.armed--
+		}
+		k.mu.Unlock()
+		s.Pub.SetRoot(after)
+		return false, status
+	case <-time.After(20 * time.Second):
+		panic("syncdrv: head request neither signs nor answers")
+	}
+	s.Pub.SetRoot(after)
+	close(latch)
+	status = <-done
+	return parked, status
+}
+
+// ---------------------------------------------------------------------------
 // The publisher server
 
 type Request struct {
